@@ -30,6 +30,7 @@ type Spec struct {
 	NewCut  int    `json:"new_cut,omitempty"` // bytes removed from the end of new (new shorter)
 	Slices  []int  `json:"slices"`            // write sizes, cyclic
 	Actions []int  `json:"actions"`           // after each write, cyclic: 0 nothing, 1 flush, 2 flush + new session (stale tail kept), 3 flush + new session (tail cut)
+	Pre     []int  `json:"pre,omitempty"`     // the same actions, applied right after creation, before any data is written
 }
 
 func contents(s Spec) (old, nw []byte) {
@@ -151,6 +152,57 @@ func check(s Spec) h.Result {
 	}
 	pos, k := 0, 0
 	sessions, flushes := 1, 0
+	var actFail *h.Result
+	act := func(a int) bool {
+		if a >= 2 && sessions >= 24 {
+			a = 1 // every session allocates two 128KiB buffers: bound them per case
+		}
+		if a >= 1 {
+			if err := ow.Flush(); err != nil {
+				actFail = &h.Result{Fail: fmt.Sprintf("Flush after %d bytes: %v", pos, err), Classes: cl}
+				return false
+			}
+			flushes++
+			if ow.ReadOffset() != int64(pos) {
+				actFail = &h.Result{Fail: fmt.Sprintf("after a flush ReadOffset()=%d but %d bytes of new content have been consumed", ow.ReadOffset(), pos), Classes: cl}
+				return false
+			}
+		}
+		if a >= 2 {
+			ro, oo := ow.ReadOffset(), ow.OverlayOffset()
+			if oo > int64(len(mf.b)) {
+				actFail = &h.Result{Fail: fmt.Sprintf("OverlayOffset()=%d beyond the %d overlay bytes written", oo, len(mf.b)), Classes: cl}
+				return false
+			}
+			if a == 3 {
+				mf.b = mf.b[:oo]
+			} else {
+				mf.b = append(mf.b[:oo], bytes.Repeat([]byte{0xEE}, 37)...)
+			}
+			mf.pos = oo
+			rd = bytes.NewReader(old)
+			if _, err := rd.Seek(ro, io.SeekStart); err != nil {
+				actFail = &h.Result{Fail: fmt.Sprintf("seek: %v", err)}
+				return false
+			}
+			var err error
+			ow, err = overlay.NewOverlayWriter(rd, ro, mf, oo)
+			if err != nil {
+				actFail = &h.Result{Fail: fmt.Sprintf("NewOverlayWriter(resume at read %d, overlay %d): %v", ro, oo, err), Classes: cl}
+				return false
+			}
+			sessions++
+		}
+		return true
+	}
+	for _, a := range s.Pre {
+		if !act(a) {
+			return *actFail
+		}
+		if a >= 2 {
+			cl = append(cl, "session-break:before-any-data")
+		}
+	}
 	for pos < len(nw) {
 		n := 1
 		if len(s.Slices) > 0 {
@@ -167,48 +219,13 @@ func check(s Spec) h.Result {
 			return h.Result{Fail: fmt.Sprintf("Write of %d bytes at %d: n=%d err=%v", n, pos, wn, err), Classes: cl}
 		}
 		pos += n
-		act := 0
+		a := 0
 		if len(s.Actions) > 0 {
-			act = s.Actions[k%len(s.Actions)]
+			a = s.Actions[k%len(s.Actions)]
 		}
 		k++
-		if act >= 2 && sessions >= 24 {
-			act = 1 // every session allocates two 128KiB buffers: bound them per case
-		}
-		if act >= 1 {
-			if err := ow.Flush(); err != nil {
-				return h.Result{Fail: fmt.Sprintf("Flush after %d bytes: %v", pos, err), Classes: cl}
-			}
-			flushes++
-			if ow.ReadOffset() != int64(pos) {
-				return h.Result{Fail: fmt.Sprintf("after a flush ReadOffset()=%d but %d bytes of new content have been consumed", ow.ReadOffset(), pos), Classes: cl}
-			}
-			if ow.OverlayOffset() != int64(len(mf.b)) && act == 1 && sessions == 1 {
-				return h.Result{Fail: fmt.Sprintf("after a flush OverlayOffset()=%d but %d overlay bytes were written", ow.OverlayOffset(), len(mf.b)), Classes: cl}
-			}
-		}
-		if act >= 2 {
-			// crash here; resume in a new session from the reported offsets
-			ro, oo := ow.ReadOffset(), ow.OverlayOffset()
-			if oo > int64(len(mf.b)) {
-				return h.Result{Fail: fmt.Sprintf("OverlayOffset()=%d beyond the %d overlay bytes written", oo, len(mf.b)), Classes: cl}
-			}
-			if act == 3 {
-				mf.b = mf.b[:oo]
-			} else {
-				// keep a stale tail: bytes written after the checkpoint by the "crashed" session
-				mf.b = append(mf.b[:oo], bytes.Repeat([]byte{0xEE}, 37)...)
-			}
-			mf.pos = oo
-			rd = bytes.NewReader(old)
-			if _, err := rd.Seek(ro, io.SeekStart); err != nil {
-				return h.Failf("seek: %v", err)
-			}
-			ow, err = overlay.NewOverlayWriter(rd, ro, mf, oo)
-			if err != nil {
-				return h.Result{Fail: fmt.Sprintf("NewOverlayWriter(resume at read %d, overlay %d): %v", ro, oo, err), Classes: cl}
-			}
-			sessions++
+		if !act(a) {
+			return *actFail
 		}
 	}
 	if err := ow.Finalize(); err != nil {
@@ -360,6 +377,9 @@ var prop = h.Prop[Spec]{
 			s.Slices = []int{1}
 		}
 		s.Actions = rapid.SliceOfN(rapid.SampledFrom([]int{0, 0, 1, 2, 3}), 1, 6).Draw(t, "actions")
+		if rapid.IntRange(0, 3).Draw(t, "pre-actions") == 0 {
+			s.Pre = rapid.SliceOfN(rapid.SampledFrom([]int{1, 2, 3}), 1, 3).Draw(t, "pre")
+		}
 		return s
 	},
 	Check: check,
